@@ -401,6 +401,7 @@ func ruleR1(p *Prog) []Ob {
 		}
 		obs = append(obs, ob)
 	}
+	obs = append(obs, p.syncUnderWriterLock(logF)...)
 	return obs
 }
 
